@@ -1178,6 +1178,10 @@ impl Family for C14 {
         out
     }
 
+    fn long_running(s: &S14) -> bool {
+        s.giant.is_some()
+    }
+
     fn rule() -> &'static str {
         "one case = (endianness, wrapper {Count, Dbg}, side {reader over u16/u32/u64 buffered or unbuffered; writer over u16/u32/u64/u128}, 0..2W+1 bits consumed/written on the inner stream before the wrapper is created, 1-10 items (all codes incl. table-parameterised variants and parameterless defaults, raw fields consumed by read_bits / skip_bits / copy_to or written by write_bits / copy_from, optional peek before an item, optional flush after an item)); the same history runs on the bare stream and through the wrapper. distinct_nontrivial = distinct (endianness, wrapper, word, operation incl. method variant, peek-path?/flush?) signatures Scale scenarios: one run in 100 000 writes a unary part of 2^32 bits through CountBitWriter into a sparse recording sink and reads / skips it through CountBitReader over a sparse source; counters after every step, values and image as for the bare objects."
     }
